@@ -282,6 +282,42 @@ def apiReps : List Api :=
 /-- **the obligation**: the generated footprint of every call is covered by the model's reading -/
 def callFootprintsModelled : Bool := apiReps.all footprintModelled
 
+/-! ### nested entry points (the closures are cut there)
+
+The closure of a call stops at the entry points of the other calls (`nestedEntries`), so what a
+*nested* entry reaches is not in the row of the call that nests it.  The obligation below closes
+that cut for handlers outside a group: whatever a nested entry reaches of the singleton with
+`mUsedByGroup = false`, the nesting call must be said to reach as well — except the pairs listed
+in `nestedAccepted`, each with its reason. -/
+
+/-- the calls whose C++ entry has the simple name `e` (the closure is by simple name) -/
+def apisOfEntryName (e : String) : List Api :=
+  apiReps.filter fun b => (b.footprint.map (·.entry)) == some e
+
+/-- nested entries accepted although the nested call reaches the singleton and the nesting one is
+not said to, (nesting call, nested entry): the `Handler` constructors name `usage` and
+`listArgGroups` only to bind them as the callbacks of the help arguments (`-h`, `--help`,
+`--list-arg-groups`; address taken, not called) — they run when such an argument is *used* during
+`evalArguments`, and a thread that does so has `Api.usage` / `Api.listArgGroups` in its call list
+(the harness' `help` workloads; `C09_usage_threads_conflict`). -/
+def nestedAccepted : List (String × String) :=
+  [("construct", "usage"), ("construct", "listArgGroups")]
+
+/-- every entry point nested in the closure of `a` is known (some call has that entry), and on a
+handler with `mUsedByGroup = false` reaches the singleton only if `a` itself is said to, or the
+pair is accepted with a reason -/
+def nestedModelled (a : Api) : Bool :=
+  match a.footprint with
+  | none => false
+  | some fp => fp.nestedEntries.all fun e =>
+      !(apisOfEntryName e).isEmpty &&
+      (apisOfEntryName e).all fun b =>
+        !b.touchesSingleton false || a.touchesSingleton false ||
+        nestedAccepted.contains (a.apiName, e)
+
+/-- **the obligation** for the nested entry points of all nine calls -/
+def nestedEntriesModelled : Bool := apiReps.all nestedModelled
+
 theorem rep_mem (a : Api) : a.rep ∈ apiReps := by
   cases a <;> simp [Api.rep, apiReps]
 
